@@ -63,12 +63,19 @@ async def explore(pid, tier, seed, m):
         sg = SchemaGen(rng, with_subscription=(si % 2 == 0))
         renv = sg.gen_env(adv=0.0, fail=0.0)
         # type resolvers with logs: nothing may run for a refused document
-        b = await er.build_engine(sg.model(), renv)
+        # a custom directive for operation and fragment DEFINITIONS (variables used in their arguments count as uses)
+        mdl = sg.model()
+        mdl["sdl_extra"] = list(mdl.get("sdl_extra", [])) + ["directive @tagq(t: String) on QUERY | MUTATION | FRAGMENT_DEFINITION"]
+        mdl["directives"] = [{"name": "tagq", "args": [{"name": "t", "type": {"n": "String"}, "default": None}], "locations": ["QUERY", "MUTATION", "FRAGMENT_DEFINITION"]}]
+        class TagQ:
+            async def on_field_execution(self, directive_args, next_resolver, parent, args, ctx, info): return await next_resolver(parent, args, ctx, info)
+        b = await er.build_engine(mdl, renv, directives={"tagq": TagQ()})
         cat = Catalogue(sg, rng)
         docs = []
         for di in range(ndocs):
             dg = DocGen(sg, rng, op_kinds=("query", "mutation") if sg.mutation else ("query",))
             dg.nested_vars = rng.random() < 0.3
+            dg.def_directive = "tagq"
             q, ops, opvars = dg.document(n_ops=rng.choice([1, 1, 2]))
             k = rng.randrange(len(ops))
             variables, _ = dg.variables_for(opvars[k], invalid=0.0)
